@@ -532,7 +532,23 @@ def r8_unsigned_subtraction(ctx):
             bb = ne(fn.deep(t["ops"][1]))
             key = "%s|%s - %s" % (parent_fn(fn.id), sh(a)[:60], sh(bb)[:40])
             if parent_fn(fn.id) in SUB_EXCEPTIONS:
-                ctx.ok(key, fn.where(b), "named exception: " + SUB_EXCEPTIONS[parent_fn(fn.id)])
+                # the exception rests on a fact about local_range, which is checked rather than believed: the range it
+                # returns is start .. start + len, and the subtraction here is end - start of exactly that range
+                lr = ctx.lib.fns.get("analysis::facts::ProgramFacts::local_range")
+                earned = False
+                if lr is not None and "local_range(" in sh(a) and "local_range(" in sh(bb) and sh(a).endswith(".end") and sh(bb).endswith(".start"):
+                    ctx.touch(lr)
+                    for b2 in sorted(lr.live):
+                        for st2 in lr.blocks[b2]["s"]:
+                            rv2 = st2["rv"]
+                            if st2["lhs"]["l"] == 0 and rv2["k"] == "agg" and str(rv2.get("adt", "")).endswith("Range") and len(rv2["ops"]) == 2:
+                                lo, hi = sh(ne(lr.deep(rv2["ops"][0]))), sh(ne(lr.deep(rv2["ops"][1])))
+                                if hi.replace(" ", "") in ("Add(%s,%s)" % (lo, lo.replace("locals_start", "locals_len")), "Add(%s,%s)" % (lo.replace("locals_start", "locals_len"), lo)):
+                                    earned = True
+                if earned:
+                    ctx.ok(key, fn.where(b), "named exception, checked: local_range returns start .. start + len, so end - start cannot wrap")
+                else:
+                    ctx.bad(key + "|exception-not-earned", fn.where(b), "the subtraction was excused because local_range returns start .. start + len; that is no longer what the code shows (%s - %s)" % (sh(a)[:50], sh(bb)[:50]))
                 continue
             facts = cmp_facts(fn, b)
             ok = False
@@ -546,6 +562,27 @@ def r8_unsigned_subtraction(ctx):
                     if bb[0] == "const" and isinstance(bb[1], int) and x == a and y[0] == "const" and isinstance(y[1], int):
                         if (o == "Gt" and y[1] >= bb[1] - 1) or (o == "Ge" and y[1] >= bb[1]) or (o == "Ne" and y[1] == 0 and bb[1] == 1):
                             ok = True
+            if not ok and "::{closure" in fn.id:
+                # a closure body: what the enclosing body has established about a captured variable before it built the
+                # closure still holds inside it (a capture of a binding that is never reassigned)
+                m = re.match(r"^arg1\.(\d+)$", sh(a))
+                sites = ctx.lib.closure_sites(fn)
+                if m and sites:
+                    par, sb, crv = sites[0]
+                    k = int(m.group(1))
+                    if k < len(crv.get("ops", [])):
+                        pe = par.deep(crv["ops"][k])
+                        while pe[0] in ("ref", "deref"):
+                            pe = pe[1]
+                        pl = pe[2] if pe[0] == "var" and len(pe) > 2 else (pe[1] if pe[0] == "arg" else None)
+                        stable = isinstance(pl, int) and (pl <= par.argc and not par.whole_defs(pl) or len(par.whole_defs(pl)) == 1)
+                        pa = ne(pe)
+                        if stable:
+                            for op, A, B, S in cmp_facts(par, sb):
+                                for (o, x, y) in ((op, A, B), ({"Lt": "Gt", "Le": "Ge", "Gt": "Lt", "Ge": "Le", "Eq": "Eq", "Ne": "Ne"}[op], B, A)):
+                                    if bb[0] == "const" and isinstance(bb[1], int) and x == pa and y[0] == "const" and isinstance(y[1], int):
+                                        if (o == "Gt" and y[1] >= bb[1] - 1) or (o == "Ge" and y[1] >= bb[1]) or (o == "Ne" and y[1] == 0 and bb[1] == 1):
+                                            ok = True
             if ok:
                 ctx.ok(key, fn.where(b), "dominated by a comparison of the two operands")
             else:
@@ -571,14 +608,85 @@ def r10_static_tables_describe_the_runtime(ctx):
 def r11_more_shared_front_end_rules(ctx):
     """Two more clauses other properties own whose violation ends in an interpreter panic on an accepted program: slice clamps
     its bounds to [0, len] (C13-R2; clamp(min > max) panics), and the initialiser of a declaration is resolved before the
-    variable exists (C04-R4c; otherwise the runtime reads a variable that has no slot yet)."""
-    from .c13 import r2_slice_clamps
+    variable exists (C04-R4c; otherwise the runtime reads a variable that has no slot yet); and a character is only ever encoded
+    into a buffer of 4 bytes (C13-R6)."""
+    from .c13 import encode_buffers, r2_slice_clamps
     from .c04 import r4c_initialiser_sees_the_old_scope
     r2_slice_clamps(ctx)
     r4c_initialiser_sees_the_old_scope(ctx)
+    encode_buffers(ctx)
 
 
-RULES = [("C06-R1", r1_r2_r7), ("C06-R3", r3_args_index), ("C06-R4", r4_unchecked), ("C06-R5", r5_binding_expects), ("C06-R8", r8_unsigned_subtraction), ("C06-R9", r9_no_failing_index_in_string_builtins), ("C06-R10", r10_static_tables_describe_the_runtime), ("C06-R11", r11_more_shared_front_end_rules)]
+def r12_no_division_by_zero(ctx):
+    """Integer division and remainder panic on a zero divisor (in every build profile).  Every `/` and `%` the compiler
+    guards with a DivisionByZero / RemainderByZero assertion has a divisor that cannot be zero: a non-zero constant, a value
+    clamped from below (`x.max(c)`, `x.clamp(c, ..)`, `x + c` with c >= 1), or one a dominating comparison has shown to be
+    non-zero (`d != 0`, `d > c`, or `x < d * k` on unsigned operands, which makes the product - hence d - positive)."""
+    n = 0
+    progs = [(ctx.lib, "")] + ([(ctx.bin, "bin:")] if ctx.bin is not None else [])
+    for prog, tag in progs:
+        for fid, fn in sorted(prog.fns.items()):
+            if not fn.file.startswith("src/"):
+                continue
+            for b in sorted(fn.live):
+                t = fn.blocks[b]["t"]
+                if t["k"] != "assert" or t.get("kind") not in ("DivisionByZero", "RemainderByZero"):
+                    continue
+                n += 1
+                ctx.touch(fn)
+                cond = fn.deep(t["cond"])
+                d = None
+                if cond[0] == "bin" and cond[1] == "Eq":
+                    d = cond[2] if not (cond[3][0] == "const" and cond[3][2] == 0) else cond[2]
+                    if cond[2][0] == "const" and cond[2][2] == 0:
+                        d = cond[3]
+                ordn = sum(1 for r in ctx.records if r["rule"] == ctx.rule and r["instance"].startswith("div|%s%s|" % (tag, parent_fn(fid))))
+                key = "div|%s%s|%s#%d" % (tag, parent_fn(fid), sh(ne(d))[:50] if d else "?", ordn + 1)
+                if d is None:
+                    ctx.bad(key, fn.where(b), "cannot see the divisor of this division")
+                    continue
+                txt = sh(ne(d))
+                why = None
+                while d[0] == "cast":
+                    d = d[1]
+                if d[0] == "const" and isinstance(d[2], int) and d[2] != 0:
+                    why = "constant divisor %d" % d[2]
+                else:
+                    core = d
+                    while core[0] == "cast":
+                        core = core[1]
+                    ctxt = sh(ne(core))
+                    m = re.match(r"^(?:\w+::)*(max|clamp)\((.*)\)$", ctxt)
+                    if core[0] == "call" and core[1].split("::")[-1] == "max" and any(a[0] == "const" and isinstance(a[2], int) and a[2] >= 1 for a in core[2]):
+                        why = "clamped from below by max(.., c >= 1)"
+                    elif core[0] == "call" and core[1].split("::")[-1] == "clamp" and len(core[2]) >= 2 and core[2][1][0] == "const" and isinstance(core[2][1][2], int) and core[2][1][2] >= 1:
+                        why = "clamped from below by clamp(c >= 1, ..)"
+                    elif core[0] == "bin" and core[1] == "Add" and any(a[0] == "const" and isinstance(a[2], int) and a[2] >= 1 for a in (core[2], core[3])):
+                        why = "x + c with c >= 1"
+                    else:
+                        dn = ne(core)
+                        for op, A, B, S in cmp_facts(fn, b):
+                            for (o, x, y) in ((op, A, B), ({"Lt": "Gt", "Le": "Ge", "Gt": "Lt", "Ge": "Le", "Eq": "Eq", "Ne": "Ne"}[op], B, A)):
+                                if x == dn and y[0] == "const" and isinstance(y[1], int):
+                                    if (o == "Ne" and y[1] == 0) or (o == "Gt" and y[1] >= 0) or (o == "Ge" and y[1] >= 1):
+                                        why = "dominated by %s(%s, %d)" % (o, sh(x)[:30], y[1])
+                                # x < product containing the divisor (unsigned): the product is positive, so is every factor
+                                if o == "Lt" and why is None:
+                                    ytxt = sh(y)
+                                    if y[0] == "var":
+                                        l = next((i for i, lo in enumerate(fn.locals) if lo["name"] == y[1]), None)
+                                        if l is not None and len(fn.whole_defs(l)) == 1:
+                                            ytxt = sh(ne(fn.deep(l)))
+                                    if ytxt.startswith("Mul(") and sh(dn) in ytxt:
+                                        why = "dominated by %s < %s, a product with the divisor as a factor" % (sh(x)[:20], ytxt[:50])
+                if why:
+                    ctx.ok(key, fn.where(b), why)
+                else:
+                    ctx.bad(key, fn.where(b), "the divisor `%s` of this integer %s can be zero (no clamp from below, no dominating comparison with zero): the interpreter panics with 'attempt to %s' instead of computing or reporting" % (txt[:80], "division" if t["kind"] == "DivisionByZero" else "remainder", "divide by zero" if t["kind"] == "DivisionByZero" else "calculate the remainder with a divisor of zero"))
+    ctx.floor("integer divisions / remainders with a run-time check", n, 10)
+
+
+RULES = [("C06-R1", r1_r2_r7), ("C06-R3", r3_args_index), ("C06-R4", r4_unchecked), ("C06-R5", r5_binding_expects), ("C06-R8", r8_unsigned_subtraction), ("C06-R9", r9_no_failing_index_in_string_builtins), ("C06-R10", r10_static_tables_describe_the_runtime), ("C06-R11", r11_more_shared_front_end_rules), ("C06-R12", r12_no_division_by_zero)]
 
 EXPLANATION = (
     "Static analysis of the type-checked MIR of every body reachable from Runtime::run/run_with_analysis in the script-facing "
@@ -592,6 +700,9 @@ EXPLANATION = (
 )
 EXPLANATION += (
     ' R11: two more clauses owned by other properties whose violation ends in an interpreter panic on an accepted program - slice clamps both bounds into [0, len] with min <= max (C13-R2), and the initialiser of a declaration is resolved before the variable exists (C04-R4c).'
+)
+EXPLANATION += (
+    " R12: every integer division / remainder the compiler guards with a zero-divisor assertion (all of src/, library and CLI) has a divisor that cannot be zero - a non-zero constant, a value clamped from below (max / clamp / + c), or one a dominating comparison shows to be non-zero (including `x < d * k` on unsigned operands). R8's one named exception (end - start of local_range) is now earned: the rule checks that local_range returns start .. start + len. R8 also uses, inside a closure, what the enclosing body established about a captured, never reassigned variable before it built the closure. R11 additionally shares C13-R6's encode-buffer clause."
 )
 ASSUMPTIONS = [
     "the resolver lets values of any run-time type reach any operand position (dynamic typing of parameters, index and member results) - re-derived by C09's tables",
